@@ -654,6 +654,16 @@ class Esc:
                     first = s.targets[0].elts[0]
                     if isinstance(first, ast.Name):
                         kinds[first.id] = 'FormalName'
+                elif isinstance(s.value.func, ast.Name) and not r:
+                    # the decoder chosen beforehand into a local (`parser = parse_interest .. parser = parse_data`): every binding of the local is one
+                    # of the packet decoders, whose first result is the decoded (formal) name
+                    binds = [a_.value for a_ in ast.walk(fn) if isinstance(a_, ast.Assign) and len(a_.targets) == 1 and isinstance(a_.targets[0], ast.Name)
+                             and a_.targets[0].id == s.value.func.id]
+                    rs_ = [P.resolve(m, b_) if isinstance(b_, (ast.Name, ast.Attribute)) else None for b_ in binds]
+                    if binds and all(r_ and r_[0] == 'func' and r_[2] in ('parse_interest', 'parse_data') for r_ in rs_):
+                        first = s.targets[0].elts[0]
+                        if isinstance(first, ast.Name):
+                            kinds[first.id] = 'FormalName'
                 tq = P.qual_of(r)
                 if tq and tq in P.funcs and tq != q:
                     sub = self.analyze(tq)
